@@ -222,7 +222,9 @@ def run(ctx):
     ok = "abs_pos = initial_positions[msg.obj] + rel_pos" in body or "abs_pos = rel_pos + initial_positions[msg.obj]" in body
     ctx.ob("C24.D1-offset-from-initial", cname(rp, None, "target = stashed initial position + requested offset"), ok,
            "" if ok else f"rewrite computes {body}", nontrivial=True, where=where(rp, rp.node))
-    ok = any(t.replace("(rel_pos,)", "rel_pos,") in ("rel_pos, = msg.args", "(rel_pos,) = msg.args") or t == "(rel_pos,) = msg.args" for t in body) and "new_msg = msg._replace(args=(abs_pos,))" in body and "return new_msg" in body
+    rets = [x for x in (ifs[0].body if ifs else []) if isinstance(x, ast.Return) and x.value is not None]
+    ok = any(t.replace("(rel_pos,)", "rel_pos,") in ("rel_pos, = msg.args", "(rel_pos,) = msg.args") or t == "(rel_pos,) = msg.args" for t in body) and \
+        bool(rets) and A.norm(q.expand(rp.node, rets[-1].value, keep=("abs_pos", "rel_pos", "msg"))) == "msg._replace(args=(abs_pos,))"
     ctx.ob("C24.D1-offset-from-initial", cname(rp, None, "the offset is the message's single argument; the rewritten message is returned"), ok, "" if ok else "argument handling changed", where=where(rp, rp.node))
     ok = bool(ifs) and ifs[0].orelse and A.norm(ifs[0].orelse[-1]) == "return msg"
     ctx.ob("C24.D1-offset-from-initial", cname(rp, None, "other messages pass unchanged"), ok, "" if ok else "other messages altered", where=where(rp, rp.node))
@@ -247,7 +249,7 @@ def run(ctx):
     ctx.ob("C24.D2-reset-to-initial", cname(rs, None, "waits for the moves"), ok, "" if ok else "no wait after the reset moves", where=where(rs, rs.node))
     f = repo.func(PP, "reset_positions_wrapper")
     fc = c23.finalize_call(f)
-    ok = fc is not None and len(fc.args) >= 2 and A.norm(fc.args[0]) == "plan_mutator(plan, insert_reads)" and A.norm(fc.args[1]) == "reset()"
+    ok = fc is not None and len(fc.args) >= 2 and c23.call_arg(repo, f, fc, 0) == "plan_mutator(plan, insert_reads)" and A.norm(fc.args[1]) == "reset()"
     ctx.ob("C24.D2-reset-to-initial", cname(f, None, "reset() is the final plan of finalize_wrapper"), ok, "" if ok else "the reset is skipped when the plan fails", where=where(f, f.node))
     # D3 rel_* plans
     for pname, (inner, sib) in REL_PLANS.items():
